@@ -19,7 +19,12 @@ pub struct Case {
 
 pub struct C18;
 
-pub const WORDS: &[&str] = &["a", "b", "A", "ab", "Ab", "c", "a", "b", "İ", "ß", "SS", "Σ", "σ", "ς", "é", "É", "the", "The"];
+pub const WORDS: &[&str] = &[
+    "a", "b", "A", "ab", "Ab", "c", "a", "b", "İ", "ß", "SS", "Σ", "σ", "ς", "é", "É", "the", "The",
+    // case pairs whose lower-case form has another UTF-8 length: Kelvin sign / k, capital sharp s / ß,
+    // Angstrom sign / å, I with dot above / i + combining dot
+    "\u{212a}", "k", "\u{1e9e}", "\u{212b}", "å", "i\u{307}", "5\u{212a}", "5k",
+];
 pub const SEPS: &[&str] = &[" ", " ", "  ", "\t", "\n", " \r\n"];
 /// White_Space code points that are not ASCII whitespace (two readings of "word"; see check)
 pub const SEPS_WIDE: &[&str] = &["\u{b}", "\u{a0}", "\u{3000}", "\u{85}", " \u{2028}", "\u{2003} "];
@@ -49,7 +54,7 @@ impl Prop for C18 {
     fn fuzz_decode(bytes: &[u8]) -> Option<Case> {
         crate::fuzzdec::c18(bytes)
     }
-    const RULE: &'static str = "two sequences of 0-8 words over a small vocabulary with repeats, case variants and non-ASCII words with special case mappings, joined by runs of ASCII whitespace (leading/trailing runs included), one separator in thirteen a White_Space code point that is not ASCII whitespace (VT, NBSP, U+3000, NEL, U+2028, em space) x ignore_case. Oracle: index pairs strictly increasing in both coordinates, matched words equal (under to_lowercase when requested), their number equals the textbook LCS length, reported lengths are the word counts, edited_words are the complements of the matched index sets. Non-trivial: LCS length strictly between 0 and min(len) with a repeated word. Distinct = distinct serialised case.";
+    const RULE: &'static str = "two sequences of 0-8 words over a small vocabulary with repeats, case variants and non-ASCII words with special case mappings (incl. pairs whose lower-case form has another byte length), joined by runs of ASCII whitespace (leading/trailing runs included), one separator in thirteen a White_Space code point that is not ASCII whitespace (VT, NBSP, U+3000, NEL, U+2028, em space) x ignore_case. Oracle: index pairs strictly increasing in both coordinates, matched words equal (under to_lowercase when requested), their number equals the textbook LCS length, reported lengths are the word counts, edited_words are the complements of the matched index sets. Non-trivial: LCS length strictly between 0 and min(len) with a repeated word. Distinct = distinct serialised case.";
     const ESSENTIAL: &'static [&'static str] = &["ignore_case", "case_sensitive", "empty_side", "repeated_word", "partial_match", "non_ascii_whitespace"];
 
     fn budget(tier: Tier) -> Budget {
